@@ -639,9 +639,12 @@ def gen_scenarios(rng):
         if k == 0:
             for j in range(3):
                 ops.append({"op": "lease", "now": now + 2 * MS + j, "kind": "dead", "dur": 0, "reason": EXTRA_REASONS[j], "lease": {"ref": [d0, j]}, "snap": True})
+            # a white-space-only reason is no reason: stored as the empty reason by every backend
+            ops.append({"op": "lease", "now": now + 2 * MS + 3, "kind": "dead", "dur": 0, "reason": " \t", "lease": {"ref": [d0, 3]}, "snap": True})
         else:
             ops.append({"op": "lease_batch", "now": now + 2 * MS, "kind": "dead", "dur": 0, "reason": EXTRA_REASONS[1], "leases": [{"ref": [d0, 0]}, {"ref": [d0, 1]}], "snap": True})
             ops.append({"op": "lease", "now": now + 2 * MS + 1, "kind": "dead", "dur": 0, "reason": EXTRA_REASONS[0], "lease": {"ref": [d0, 2]}, "snap": True})
+            ops.append({"op": "lease_batch", "now": now + 2 * MS + 2, "kind": "dead", "dur": 0, "reason": "  ", "leases": [{"ref": [d0, 3]}], "snap": True})
         ops.append({"op": "stats", "now": now + 3 * MS, "snap": True})
         hs.append({"cfg": _cfg0(), "ops": ops, "snap_every": 1, "c13_ok": True, "only": ["C13"]})
     return hs
